@@ -234,7 +234,7 @@ func runCheck(args []string) int {
 		h := sums[name]
 		seen := map[string]int{}
 		for _, w := range h.viol {
-			if seen[w.Msg] >= 2 {
+			if seen[w.Msg] >= 6 {
 				continue
 			}
 			seen[w.Msg]++
@@ -267,6 +267,12 @@ func runCheck(args []string) int {
 		}
 	}
 
+	anyReproduced := map[string]bool{}
+	for _, p := range pend {
+		if p.kf == "" && (p.spec.Replay == "none" || reproduced(p.w, status[p.id], fails[p.id])) {
+			anyReproduced[p.spec.Func+"|"+p.w.Msg] = true
+		}
+	}
 	exit := 0
 	var violLines, knownLines, inconcLines []string
 	replayed := 0
@@ -294,6 +300,9 @@ func runCheck(args []string) int {
 			continue
 		}
 		key := p.spec.Func + "|" + p.w.Msg
+		if !ok && anyReproduced[key] {
+			continue
+		}
 		if ok {
 			if reportedMsg[key] {
 				continue
@@ -305,6 +314,7 @@ func runCheck(args []string) int {
 			samples = append(samples, map[string]interface{}{"violation": p.w.Msg, "harness": p.spec.Func, "witness": p.w.Inputs, "vector": p.w.Trace, "native": native})
 			exit = 1
 		} else if !reportedMsg[key] {
+			reportedMsg[key] = true
 			mismatches++
 			inconcLines = append(inconcLines, fmt.Sprintf("INCONCLUSIVE property=%s harness=%s reason=ENCODER-MISMATCH: model does not reproduce natively (%s) for %q witness %s vector %v", prop, p.spec.Func, native, p.w.Msg, p.w.Inputs, p.w.Trace))
 		}
